@@ -1,0 +1,31 @@
+//go:build verif
+
+package barcode
+
+import "image/color"
+
+// Ghost lemma functions for /verif/govc (never compiled without the verif tag): each body is the
+// client code whose verification against the contracts of Scale*/At IS the composition argument.
+
+// (i*f + d) / f == i: the nonlinear step, proved once and used as a hint below.
+func lemmaDivMul(i, f, d int) int {
+	return (i*f + d) / f
+}
+
+func lemmaBlock2D(s *scaledBarcode, bc Barcode, width, height int, fill color.Color, f, ox, oy, i, j, dx, dy int) color.Color {
+	lemmaDivMul(i, f, dx)
+	lemmaDivMul(j, f, dy)
+	return s.At(ox+i*f+dx, oy+j*f+dy)
+}
+
+func lemmaFill2D(s *scaledBarcode, bc Barcode, width, height int, fill color.Color, x, y int) color.Color {
+	return s.At(x, y)
+}
+
+func lemmaBlock1D(s *scaledBarcode, bc Barcode, width, height int, fill color.Color, f, ox, i, dx, y int) color.Color {
+	return s.At(ox+i*f+dx, y)
+}
+
+func lemmaFill1D(s *scaledBarcode, bc Barcode, width, height int, fill color.Color, x, y int) color.Color {
+	return s.At(x, y)
+}
